@@ -799,6 +799,20 @@ def all_closures(facts, body, _seen=None):
     return out
 
 
+def all_callables(facts, body):
+    """all_closures plus the crate-local fn items handed by name to a call of `body` / of its closures (`.map(f)` and
+    `.map(|x| f(x))` read alike)"""
+    out = list(all_closures(facts, body))
+    seen = {x.npath for x in out}
+    for hb in [body] + list(out):
+        for c in hb.find_calls():
+            for x in closure_args_of_call(facts, hb, c):
+                if x.npath not in seen:
+                    seen.add(x.npath)
+                    out.append(x)
+    return out
+
+
 def upvar_expr(facts, closure_body, k):
     """expression (in the constructing body) captured as upvar k of the closure"""
     parent_path = norm(closure_body.d.get('parent', ''))
@@ -1061,6 +1075,32 @@ def resolve_to_root(facts, body, e, depth=4):
     return cur_b, cur
 
 
+def project_expr(s, fields):
+    """apply a field path to an expression: a place gets longer, a struct / tuple aggregate yields the selected
+    component, anything else keeps the path as a pending projection"""
+    fields = tuple(fields)
+    while fields:
+        if s.kind == 'place':
+            return E('place', root=s.root, fields=tuple(s.fields) + fields)
+        if s.kind == 'agg' and not s.proj and isinstance(s.extra, dict):
+            names = s.extra.get('fields')
+            f0 = fields[0]
+            idx = None
+            if names and f0 in names:
+                idx = names.index(f0)
+            elif s.extra.get('ak') in ('tuple', 'array') and f0.isdigit():
+                idx = int(f0)
+            if idx is not None and idx < len(s.args):
+                s = s.args[idx]
+                fields = fields[1:]
+                continue
+        if s.kind in ('call', 'agg'):
+            return E(s.kind, name=s.name, args=s.args, site=s.site, extra=s.extra, proj=tuple(s.proj) + fields,
+                     root=s.root, fields=s.fields, const=s.const)
+        return s
+    return s
+
+
 def subst_upvars(facts, body, e, depth=3):
     """rebuild an expression of a closure body with captured variables replaced by the captured expressions of the
     enclosing body (recursively, bounded)"""
@@ -1073,15 +1113,13 @@ def subst_upvars(facts, body, e, depth=3):
             if pe is None:
                 return x
             pe = subst_upvars(facts, pb, pe, depth - 1)
-            ps = pe
             if x.fields:
-                s = pe.strip()
-                if s.kind == 'place':
-                    return E('place', root=s.root, fields=tuple(s.fields) + tuple(x.fields))
-                if s.kind in ('call', 'agg'):
-                    return E(s.kind, name=s.name, args=s.args, site=s.site, extra=s.extra,
-                             proj=tuple(s.proj) + tuple(x.fields))
-            return ps
+                s_ = pe.strip() if pe.kind in ('place', 'call') else pe
+                alts = s_.args if s_.kind == 'phi' else [s_]
+                outs = [project_expr(a.strip() if a.kind == 'call' and a.name.rsplit('::', 1)[-1] in TRANSPARENT else a,
+                                     x.fields) for a in alts]
+                return outs[0] if len(outs) == 1 else E('phi', args=outs)
+            return pe
         if not x.args:
             return x
         return E(x.kind, name=x.name, args=[rec(a) if isinstance(a, E) else a for a in x.args], root=x.root,
